@@ -215,7 +215,7 @@ func (b *builder) htmlURLElement() {
 }
 
 func (b *builder) htmlBlock(depth int) {
-	switch rapid.IntRange(0, 12).Draw(b.t, "block") {
+	switch rapid.IntRange(0, 13).Draw(b.t, "block") {
 	case 0, 1:
 		tag := b.pick("tag", "p", "div", "span", "h1", "li", "td", "b", "P", "section")
 		b.w("<" + tag)
@@ -258,6 +258,21 @@ func (b *builder) htmlBlock(depth int) {
 		b.hole("html.script.data", "d")
 		b.w("</p>")
 		b.w("</script>")
+	case 12:
+		// a raw-text element whose end tag arrives while a string literal is open: for HTML the element
+		// simply ends there (the rest is ordinary text); any lexer state about the open string must not
+		// leak into the HTML that follows
+		b.w(b.pick("endinstr",
+			"<script>var s = \"a</script>",
+			"<script>document.write('<b>x</b></script>",
+			"<style>p { content: \"x</style>",
+			"<style>p::before { content: 'y</style>",
+			"<script type=\"application/ld+json\">{\"k\": \"v</script>",
+			"<script>var t = \"it's</script>"))
+		b.w("<" + b.pick("tagafter", "p", "input", "div", "a"))
+		b.htmlAttr()
+		b.w(">")
+		b.htmlText()
 	default:
 		b.htmlText()
 	}
@@ -288,7 +303,7 @@ func (b *builder) jsStatements(p string) {
 }
 
 func (b *builder) jsStatement(p string) {
-	switch rapid.IntRange(0, 15).Draw(b.t, "jsstmt") {
+	switch rapid.IntRange(0, 16).Draw(b.t, "jsstmt") {
 	case 0, 1, 2:
 		b.w("var a = ")
 		b.hole(p+".expr", "1")
@@ -341,6 +356,11 @@ func (b *builder) jsStatement(p string) {
 		}
 		b.w("var re = /[\"']/; var w = ")
 		b.hole(p+".expr.afterregexquote", "1")
+		b.w(";")
+	case 16:
+		// a string literal that ends with an escaped backslash, then a hole at expression position
+		b.w(b.pick("bsq", "var p = \"c:\\\\\"; var w = ", "var p = 'a\\\\'; var w = ", "var p = \"\\\\\\\"\"; var w = "))
+		b.hole(p+".expr.afterbackslash", "1")
 		b.w(";")
 	case 14:
 		b.w("var q = \"it's\"; var w = ")
